@@ -107,9 +107,53 @@ def strict_origin_sweep(ctx: Ctx, eng: morph.Engine):
                 ctx.fail(f"strict-origin:probe:{hint!r}", f"strict retort accepts {d!r} for {hint!r}", {"hint": repr(hint), "datum": repr(d)})
 
 
+def literal_matrix(ctx: Ctx, eng: morph.Engine):
+    """every Literal over {True, False, 0, 1, 2, 'a', '1'} (non-empty subsets) x look-alike data x modes, strict and lax:
+    the strict loader of a bool/0/1-sensitive Literal accepts exactly the data equal to a case OF THE SAME EXACT TYPE;
+    otherwise and in lax mode plain `==` membership; strict-accepted => lax-accepted with the same value"""
+    import itertools
+    from typing import Literal
+    pool = [True, False, 0, 1, 2, "a", "1"]
+    data = [True, False, 0, 1, 2, -1, 1.0, 0.0, "a", "1", None]
+    tg = morph.TypeGen(ctx.rng)
+    subsets = [c for k in range(1, len(pool) + 1) for c in itertools.combinations(pool, k)]
+    if ctx.tier == "quick":
+        subsets = [c for c in subsets if len(c) <= 3] + ctx.rng.sample([c for c in subsets if len(c) > 3], 12)
+    cases = []
+    for vals in subsets:
+        spec = tg.from_hint_literal(Literal[vals])
+        for d in data:
+            for m in morph.MODES:
+                for s in (True, False):
+                    cases.append((spec, d, m, s, vals))
+    rows = eng.compare_loads([c[:4] for c in cases], suite="literal-matrix")
+    by = {}
+    for (spec, d, m, s, vals), (_, real, _model) in zip(cases, rows):
+        by[(vals, repr(d), m, s)] = real
+        sensitive = any(type(v) is bool or (type(v) is int and v in (0, 1)) for v in vals)
+        if s and sensitive:
+            want = any(type(v) is type(d) and v == d for v in vals)
+        else:
+            want = any(v == d for v in vals)
+        ctx.note_case({"lit": repr(vals), "d": repr(d), "m": m, "s": s}, nontrivial=True, kind=f"literal:{'strict' if s else 'lax'}:{real['r']}")
+        got = real["r"] == "ok"
+        case = {"hint": f"Literal{list(vals)}", "datum": repr(d), "mode": m, "strict": s}
+        if got != want:
+            ctx.fail("strict-origin:literal" if s else "lax-literal",
+                     f"{'strict' if s else 'lax'} loader of Literal{list(vals)} [{m}] {'accepts' if got else 'rejects'} {d!r} "
+                     f"({type(d).__name__})", case)
+        elif got and (real["v"] != morph.canon_val(morph.enc(d))):
+            ctx.fail("literal-value", f"Literal{list(vals)} loads {d!r} as another value", case)
+    for (vals, dr, m, s), real in by.items():
+        if s and real["r"] == "ok" and by[(vals, dr, m, False)] != real:
+            ctx.fail("strict-not-sub-lax:literal", f"Literal{list(vals)} [{m}]: strict accepts {dr} but lax gives "
+                     f"{by[(vals, dr, m, False)]['r']} / another value", {"hint": f"Literal{list(vals)}", "datum": dr, "mode": m})
+
+
 def run(ctx: Ctx):
     eng = morph.Engine(ctx)
     strict_origin_sweep(ctx, eng)
+    literal_matrix(ctx, eng)
     specs = eng.gen_specs(ctx.budget(140, 2000), 3 if ctx.tier == "quick" else 4)
     recs = eng.load_records(specs, suite="load", n_valid=2, n_corrupt=3, n_hostile=2)
     for rec in recs:
@@ -127,6 +171,7 @@ def search(ctx: Ctx):
     eng = morph.Engine(ctx)
     eng.drv = None
     strict_origin_sweep(ctx, eng)
+    literal_matrix(ctx, eng)
     if not ctx.failures:
         for rec in eng.load_records(eng.gen_specs(1500, 4), n_valid=2, n_corrupt=4, n_hostile=3):
             oracle_pair(ctx, eng, rec)
@@ -136,4 +181,5 @@ def replay(ctx: Ctx, case) -> bool:
     eng = morph.Engine(ctx)
     before = len(ctx.failures)
     strict_origin_sweep(ctx, eng)
+    literal_matrix(ctx, eng)
     return len(ctx.failures) > before
